@@ -496,10 +496,18 @@ class InstanceWriteProvider(BaseProvider):
             if multi_ns:
                 multi_ns.append(namespace)
                 instance_name_copy = InstanceName.copy()
+                # Delete the copies of the instance that exist. A copy is
+                # missing in a referenced namespace if the instance was
+                # added with add_cimobjects() (which stores it in a single
+                # namespace). Failing on a missing copy would leave the
+                # copies deleted so far removed.
                 for ns in multi_ns:
+                    if ns not in self.cimrepository.namespaces:
+                        continue
                     instance_name_copy.namespace = ns
                     instance_store = self.cimrepository.get_instance_store(ns)
-                    instance_store.delete(instance_name_copy)
+                    if instance_store.object_exists(instance_name_copy):
+                        instance_store.delete(instance_name_copy)
             else:
                 instance_store = \
                     self.cimrepository.get_instance_store(namespace)
